@@ -178,7 +178,7 @@ func parseImplicitAnd(data *y.Yaml, variable Variable, varGenerator *VarGenerato
 		}
 
 		constraint := data.Get(pathString)
-		if !constraint.IsMap() {
+		if !constraint.IsFound() || !constraint.IsMap() {
 			return nil, errors.New("PropertyConstraint must be a map")
 		}
 		cs, err := ParseConstraint(propertyPath, variable, constraint, varGenerator)
